@@ -272,6 +272,17 @@ def r1_one_relation(chk):
         if len(base) < 8:
             r.bad(cfg, "shared table|extracted", where(clos, 0), "only %d pairs extracted from the shared table" % len(base))
             continue
+        # the reference: the valid pairings of the ZeroMQ socket patterns (ZMTP 3.1 / RFC 28 "Socket semantics")
+        spec = {("PAIR", "PAIR"), ("PUB", "SUB"), ("PUB", "XSUB"), ("XPUB", "SUB"), ("XPUB", "XSUB"), ("REQ", "REP"), ("REQ", "ROUTER"),
+                ("DEALER", "REP"), ("DEALER", "DEALER"), ("DEALER", "ROUTER"), ("ROUTER", "ROUTER"), ("PUSH", "PULL")}
+        spec_sym = spec | {(b, a) for a, b in spec}
+        lost = sorted(p for p in spec_sym if p not in table and p[0] <= p[1])
+        added = sorted(p for p in table if p not in spec_sym and p[0] <= p[1])
+        if lost or added:
+            r.bad(cfg, "shared table|equals the ZeroMQ pairing relation", where(clos, 0), "the shared compatibility table %s%s: compatible endpoints would be refused / incompatible ones accepted" % (
+                ("refuses the valid pairing(s) %s" % lost) if lost else "", ((" and " if lost else "") + "accepts %s which are not ZeroMQ pairings" % added) if added else ""))
+        else:
+            r.ok(cfg, "shared table|equals the ZeroMQ pairing relation", where(clos, 0), "12 pairings, symmetric closure")
         sym = all((b, a) in table for a, b in table)
         (r.ok if sym else r.bad)(cfg, "shared table|symmetric", where(shared, 0), *([] if sym else ["the shared relation is not symmetric"]))
         r.note("%s: shared table = %s" % (cfg, sorted(base)))
